@@ -233,7 +233,8 @@ def resolve_entity(entity):
 
 
 def replace_html_entities(txt):
-    return re.sub(r"&[^;]*;", lambda mo: resolve_entity(mo.group(0)), txt)
+    # a reference is "&name;" or "&#digits;": a stray "&" must not swallow the next one
+    return re.sub(r"&#?[0-9a-zA-Z]+;", lambda mo: resolve_entity(mo.group(0)), txt)
 
 
 def remove_nowiki_tags(
